@@ -1098,13 +1098,62 @@ async fn run_connection(world: &mut World, acc: &mut Acc, rng: &mut Rng) -> Resu
                     2 => ("class", "person".to_string()),
                     _ => ("displayname", "nope".to_string()),
                 };
-                let dn = format!("name={},{BASEDN}", p.name);
+                // the entry named by the compare: a person, a group, an application, or builtin
+                // entries most binds cannot see
+                let (tname, tuuid): (String, Option<Uuid>) = match rng.below(8) {
+                    0..=2 => (p.name.clone(), Some(p.uuid)),
+                    3 => {
+                        let g = rng.pick(&world.groups);
+                        (g.1.clone(), Some(g.0))
+                    }
+                    4 if !world.apps.is_empty() => (rng.pick(&world.apps).name.clone(), None),
+                    5 => ("idm_admin".to_string(), None),
+                    6 => ("idm_acp_people_manage".to_string(), None),
+                    _ => (p.name.clone(), Some(p.uuid)),
+                };
+                let dn = match (tuuid, rng.bool()) {
+                    (Some(u), true) => format!("uuid={u},{BASEDN}"),
+                    _ => format!("name={tname},{BASEDN}"),
+                };
                 let r = gateway(world, &uat, compare_msg(&dn, atype, &val)).await;
                 match r {
                     Reply::Msgs(m) | Reply::BindMsgs(_, m) => {
                         let code = normalise(&m).map(|x| x.1).unwrap_or_else(|e| e);
                         acc.count(&format!("compare.{code}"));
                         log.push(json!({"op": "compare", "dn": dn, "attr": atype, "result": code}));
+                        // no more privileged than the bind: an entry the same session cannot find by
+                        // a search must look exactly like an entry that does not exist
+                        if code == "CompareTrue" || code == "CompareFalse" {
+                            let smsg = LdapMsg {
+                                msgid: 5,
+                                op: LdapOp::SearchRequest(LdapSearchRequest {
+                                    base: dn.clone(),
+                                    scope: LdapSearchScope::Base,
+                                    aliases: LdapDerefAliases::Never,
+                                    sizelimit: 0,
+                                    timelimit: 0,
+                                    typesonly: false,
+                                    filter: LdapFilter::Present("objectclass".to_string()),
+                                    attrs: vec!["1.1".to_string()],
+                                }),
+                                ctrl: vec![],
+                            };
+                            if let Reply::Msgs(sm) | Reply::BindMsgs(_, sm) = gateway(world, &uat, smsg).await {
+                                match normalise(&sm) {
+                                    Ok((ans, _)) if ans.is_empty() => {
+                                        acc.violation(
+                                            "c40/compare-answers-for-entry-the-bind-cannot-find",
+                                            json!({"connection_log": log, "compare": {"dn": dn, "attr": atype, "result": code},
+                                                   "explanation": "the same session's search on that DN returns nothing, yet compare answered true/false instead of noSuchObject: the gateway discloses the existence of an entry the bound identity cannot read"}),
+                                        );
+                                    }
+                                    Ok(_) => acc.count("compare.answered_for_visible_entry"),
+                                    Err(_) => acc.count("compare.visibility_search_refused(not judged)"),
+                                }
+                            }
+                        } else if code == "NoSuchObject" {
+                            acc.count("compare.no_such_object");
+                        }
                     }
                     _ => acc.count("compare.other_reply"),
                 }
